@@ -143,6 +143,8 @@ where
             let mut writer = self.persistent_storage.writer(&self.id);
             value.write(&mut writer);
         }
+        #[cfg(fontc_verif)]
+        verif::read_back(&*self.persistent_storage, &self.id, &value, Some(|a, b| a == b));
 
         *self.value.write() = Some(Arc::from(value));
     }
@@ -241,6 +243,8 @@ where
             let mut writer = self.persistent_storage.writer(&key);
             value.write(&mut writer);
         }
+        #[cfg(fontc_verif)]
+        verif::read_back(&*self.persistent_storage, &key, &value, None);
 
         self.value.write().insert(key, Arc::from(value));
     }
@@ -268,6 +272,35 @@ where
         }
 
         self.set_unconditionally(value);
+        #[cfg(fontc_verif)]
+        if let Some(value) = self.value.read().get(&key) {
+            verif::read_back(
+                &*self.persistent_storage,
+                &key,
+                &**value,
+                Some(|a, b| a == b),
+            );
+        }
+    }
+}
+
+#[cfg(fontc_verif)]
+impl<I, T, Ir> ContextMap<I, T, Ir>
+where
+    I: Identifier,
+    T: IdAware<I> + PartialEq + Persistable,
+    Ir: PersistentStorage<I>,
+{
+    /// For callers of [`Self::set_unconditionally`]: check the stored value reads back equal.
+    pub fn verif_read_back(&self, key: &I) {
+        if let Some(value) = self.value.read().get(key) {
+            verif::read_back(
+                &*self.persistent_storage,
+                key,
+                &**value,
+                Some(|a, b| a == b),
+            );
+        }
     }
 }
 
@@ -384,6 +417,8 @@ impl PersistentStorage<WorkId> for IrPersistentStorage {
             panic!("Write requested while inactive");
         };
         let file = Paths::target_file(ir_dir, id);
+        #[cfg(fontc_verif)]
+        verif::wfile(id, &file);
         let raw_file = File::create(file.clone())
             .map_err(|e| panic!("Unable to write {file:?} {e}"))
             .unwrap();
@@ -545,5 +580,109 @@ impl Context {
     pub fn get_anchor(&self, name: impl Into<GlyphName>) -> Arc<ir::GlyphAnchors> {
         let id = WorkId::Anchor(name.into());
         self.anchors.get(&id)
+    }
+}
+
+/// Persistence monitors; see `fontdrasil::orchestration::verif`.
+#[cfg(fontc_verif)]
+pub mod verif {
+    use std::{panic::AssertUnwindSafe, path::Path};
+
+    use fontdrasil::orchestration::{
+        Identifier,
+        verif::{enabled, jid, js, record},
+    };
+
+    use super::{Persistable, PersistentStorage};
+
+    thread_local! {
+        static PROBING: std::cell::Cell<bool> = const { std::cell::Cell::new(false) };
+    }
+
+    /// While alive, panics on this thread are not printed: they are the probe's own and are
+    /// reported through the `persist` event instead.
+    struct QuietPanics;
+
+    impl QuietPanics {
+        fn enter() -> Self {
+            static HOOK: std::sync::Once = std::sync::Once::new();
+            HOOK.call_once(|| {
+                let default = std::panic::take_hook();
+                std::panic::set_hook(Box::new(move |info| {
+                    if !PROBING.with(|p| p.get()) {
+                        default(info);
+                    }
+                }));
+            });
+            PROBING.with(|p| p.set(true));
+            QuietPanics
+        }
+    }
+
+    impl Drop for QuietPanics {
+        fn drop(&mut self) {
+            PROBING.with(|p| p.set(false));
+        }
+    }
+
+    /// Record which file an item is written to.
+    pub fn wfile<I: Identifier>(id: &I, path: &Path) {
+        if !enabled() {
+            return;
+        }
+        record(
+            "wfile",
+            &format!(
+                "\"item\":{},\"path\":{}",
+                jid(id),
+                js(&path.to_string_lossy())
+            ),
+        );
+    }
+
+    /// After `value` was written for `id`: read the file back and compare.
+    ///
+    /// Emits `persist{item, type, readable, equal, idem}`: `equal` is `read == value` (null if the
+    /// type has no equality here), `idem` is whether re-writing the value read gives the same bytes
+    /// as are in the file. Never panics; an unreadable file is reported, not propagated.
+    pub fn read_back<I, T, P>(storage: &P, id: &I, value: &T, eq: Option<fn(&T, &T) -> bool>)
+    where
+        I: Identifier,
+        T: Persistable,
+        P: PersistentStorage<I>,
+    {
+        if !enabled() || !storage.active() {
+            return;
+        }
+        let _quiet = QuietPanics::enter();
+        let result = std::panic::catch_unwind(AssertUnwindSafe(|| {
+            let mut on_disk = Vec::new();
+            storage
+                .reader(id)
+                .map(|mut r| r.read_to_end(&mut on_disk))?
+                .ok()?;
+            let restored = T::read(&mut on_disk.as_slice());
+            let equal = eq.map(|eq| eq(&restored, value));
+            let idem = std::panic::catch_unwind(AssertUnwindSafe(|| {
+                let mut again = Vec::new();
+                restored.write(&mut again);
+                again == on_disk
+            }))
+            .ok();
+            Some((equal, idem, on_disk.len()))
+        }));
+        let opt = |v: Option<bool>| v.map(|b| b.to_string()).unwrap_or("null".to_string());
+        let (readable, equal, idem, len) = match result {
+            Ok(Some((equal, idem, len))) => (true, opt(equal), opt(idem), len),
+            Ok(None) | Err(_) => (false, opt(None), opt(None), 0),
+        };
+        record(
+            "persist",
+            &format!(
+                "\"item\":{},\"type\":{},\"readable\":{readable},\"equal\":{equal},\"idem\":{idem},\"len\":{len}",
+                jid(id),
+                js(std::any::type_name::<T>())
+            ),
+        );
     }
 }
